@@ -52,7 +52,7 @@ NUMPY = {
         lib.recfunctions.unstructured_to_structured""".split(),
     "box": """array broadcast_arrays split array_split hsplit vsplit dsplit""".split(),
     "view": """asarray asanyarray ascontiguousarray atleast_1d atleast_2d atleast_3d broadcast_to reshape ravel transpose
-        expand_dims squeeze moveaxis swapaxes diag diagonal ndarray ndarray.__getitem__ real imag apply_over_axes
+        expand_dims squeeze moveaxis swapaxes diag diagonal ndarray ndarray.__getitem__ ndarray.view real imag apply_over_axes
         lib.recfunctions.structured_to_unstructured""".split(),
     "write0": """copyto put place putmask fill_diagonal ndarray.__setitem__""".split(),
 }
